@@ -359,6 +359,16 @@ class Policy:
             return True
         return False
 
+EXPLICIT_PANIC = re.compile(r"^core::panicking::|^core::option::(expect|unwrap)_failed|^core::result::unwrap_failed|begin_panic|panic_fmt|^core::slice::index::\w+_fail|^core::rt::")
+
+def lossless_int(a, b):
+    """every value of integer type a is a value of integer type b"""
+    wa, wb = INT_BITS[a], INT_BITS[b]
+    sa, sb = a.startswith("i"), b.startswith("i")
+    if sa == sb:
+        return wb >= wa
+    return (not sa) and sb and wb > wa
+
 class Exec:
     def __init__(self, facts, policy, max_nodes=20000, loops="reject", hooks=None):
         self.facts = facts
@@ -472,7 +482,14 @@ class Exec:
         for l in sorted(assigned):
             self.hv += 1
             before = st.store.get(fr.locs[l])
-            hvt = mk("havoc", self.hv, F.norm_ty(fr.mir["locals"][l]["ty"]))
+            lty = F.norm_ty(fr.mir["locals"][l]["ty"])
+            hvt = mk("havoc", self.hv, lty)
+            mr = re.match(r"^core::ops::Range<(\w+)>$", lty)
+            if mr and mr.group(1) in INT_BITS and tag(before) == "agg" and len(before[2]) == 2 and self.range_only_next(fr, cs, l):
+                # a `lo..hi` that the loop only advances with next(): its end stays what it is, its start is anything
+                # not below where it began (next() stops at the end)
+                hvt = mk("agg", before[1], (mk("havoc", self.hv, mr.group(1)), before[2][1]))
+                st.known[self.binop("Ge", mr.group(1), hvt[2][0], before[2][0])] = 1
             if before is not None:
                 entry[l] = (self.deref_value(st, before), hvt)
             st.store[fr.locs[l]] = hvt
@@ -486,6 +503,53 @@ class Exec:
             for c, v in self.hooks.loop_invariants(self, st, fr, head, entry):
                 st.known[c] = v
         return sorted(assigned)
+
+    @staticmethod
+    def _mentions(obj, l):
+        if isinstance(obj, dict):
+            if obj.get("l") == l and "p" in obj:
+                return True
+            if obj.get("idx") == l:
+                return True
+            return any(Exec._mentions(v, l) for v in obj.values())
+        if isinstance(obj, (list, tuple)):
+            return any(Exec._mentions(v, l) for v in obj)
+        return False
+
+    def range_only_next(self, fr, cs, l):
+        """inside the loop the local is touched only as `tmp = &mut l; [tmp2 = &mut *tmp;] Range::next(move tmp)`"""
+        blocks = fr.mir["blocks"]
+        tmps = set(); borrow_stmts = set()
+        changed = True
+        while changed:
+            changed = False
+            for bi in cs:
+                for k_, s_ in enumerate(blocks[bi]["s"]):
+                    if "lhs" not in s_ or (bi, k_) in borrow_stmts or s_["lhs"]["p"]:
+                        continue
+                    rv = s_["rv"]
+                    if "ref" in rv and rv.get("mut"):
+                        src = rv["ref"]
+                        if (src["l"] == l and not src["p"]) or (src["l"] in tmps and src["p"] == ["deref"]):
+                            tmps.add(s_["lhs"]["l"]); borrow_stmts.add((bi, k_)); changed = True
+        if not tmps:
+            return False
+        watched = tmps | {l}
+        for bi in cs:
+            for k_, s_ in enumerate(blocks[bi]["s"]):
+                if (bi, k_) in borrow_stmts:
+                    continue
+                if any(self._mentions(s_, w) for w in watched):
+                    return False
+            t = blocks[bi]["t"]
+            if any(self._mentions(t, w) for w in watched):
+                d = F.norm_path(((t.get("f") or {}).get("res") or t.get("f") or {}).get("def", "")) if t["k"] == "call" else ""
+                args = t.get("args", []) if t["k"] == "call" else []
+                ok = d.endswith("core::ops::Range<A>>::next") and len(args) == 1 and "move" in args[0] and args[0]["move"]["l"] in tmps and not args[0]["move"]["p"] \
+                    and not any(self._mentions(t["dest"], w) for w in watched)
+                if not ok:
+                    return False
+        return True
 
     def iterate_once(self, st, fr, head, extra_known, hooks):
         """one symbolic iteration of the loop at `head` from the (havoc'd) state `st`:
@@ -628,6 +692,11 @@ class Exec:
             if esz and len(hx) >= 4 * esz:
                 lo = self.from_bytes(ety, hx[:2 * esz]); hi = self.from_bytes(ety, hx[2 * esz:4 * esz])
                 return mk("call", "core::ops::RangeInclusive::<Idx>::new<%s>" % ety, lo, hi)
+        # a private newtype around one field (`struct Table([TwoFloat; N]);`): the same bytes, one level of wrapping
+        for sd in self.facts.structs:
+            if F.norm_path(sd["path"]) == ty and len(sd.get("fields", [])) == 1 and sd["fields"][0].get("ty"):
+                inner = self.from_bytes(F.norm_ty(sd["fields"][0]["ty"]), hx)
+                return mk("agg", ("adt", ty, 0, ty.split("::")[-1]), (inner,))
         return mk("carray", ty, hx)
 
     def store_to(self, st, loc, proj, val):
@@ -927,6 +996,11 @@ class Exec:
             v = to_signed(frm, cint(a))
             # Python's int -> float conversion is correctly rounded (ties to even), like Rust's `as f64`
             return mk_const("f64", struct.unpack("<Q", struct.pack("<d", float(v)))[0])
+        if kind == "IntToInt" and frm in INT_BITS and to in INT_BITS and frm == to:
+            return a
+        if kind == "IntToInt" and tag(a) == "cast" and a[1] == "IntToInt" and a[2] in INT_BITS and a[3] == frm and frm in INT_BITS and to in INT_BITS and lossless_int(a[2], frm):
+            # widening first changes nothing: (x as B) as C == x as C when B holds every value of x's type
+            return self.cast("IntToInt", a[2], to, a[4])
         return mk("cast", kind, frm, to, a)
 
     def rvalue(self, st, fr, rv):
@@ -1269,6 +1343,19 @@ class Exec:
                 ra = raw_args[0]
                 self.store_to(st, ra[1], tuple(ra[2]), mk("agg", a0[1], (mk_const(ty, from_signed(ty, lo + 1)), a0[2][1])))
                 return mk("agg", ("adt", "core::option::Option", 1, "Some"), (a0[2][0],))
+            if (base.endswith("Iterator>::fold") or base.startswith("core::iter::Iterator::fold")) and len(args) == 3:
+                # `(lo..hi).fold(init, |acc, i| ..)` with constant bounds: the closure applied hi - lo times
+                ty, lo, hi = cr
+                clo = self.deref_value(st, args[2])
+                cb = self.facts.by_key.get(clo[1][1]) if tag(clo) == "agg" and clo[1][0] == "closure" else None
+                if cb is not None and hi - lo <= 64:
+                    sub = Exec(self.facts, self.policy, max_nodes=2000)
+                    leaf = sub.run_body(cb)
+                    if leaf[0] == "leaf" and not leaf[2]:
+                        acc = self.deref_value(st, args[1])
+                        for i in range(lo, hi):
+                            acc = _subst_closure(leaf[1], clo, acc, mk_const(ty, from_signed(ty, i)))
+                        return acc
             return None
         if tag(a0) != "sliceiter" and not (base.startswith("core::option::Option::<T>::unwrap") or base.startswith("core::option::Option::<T>::expect")
                                            or base.startswith("core::mem::replace") or base.startswith("core::mem::swap") or base.startswith("core::mem::take")):
@@ -1343,6 +1430,14 @@ class Exec:
         it = self.iterator_foreign(st, base, r, args, args)
         if it is not None:
             return it
+        if base == "core::slice::<impl [T]>::len" and len(args) == 1:
+            arr = self.deref_value(st, args[0])
+            if tag(arr) == "carray":
+                ml = re.match(r"^\[(.*); (\d+)\]$", arr[1])
+                if ml:
+                    return mk_const("usize", int(ml.group(2)))
+        if base == "<I as core::iter::IntoIterator>::into_iter" and len(args) == 1:
+            return args[0]      # the blanket impl for iterators: `fn into_iter(self) -> I { self }`
         m = self._ARITH.match(base)
         if m:
             a = self.deref_value(st, args[0]); b = self.deref_value(st, args[1])
@@ -1420,10 +1515,27 @@ class Exec:
             pair = self.binop({"add": "AddWithOverflow", "sub": "SubWithOverflow", "mul": "MulWithOverflow"}[m.group(2)], ty, a, b)
             res, ovf = pair[2]
             return ("if", ovf, ("val", NONE), ("val", some(res)))
+        if base == "<T as core::convert::TryFrom<U>>::try_from" and len(args) == 1 and len(r.get("args") or []) == 2:
+            # the blanket impl through Into: infallible (`Ok(U::into(value))`); for integers Into is the lossless cast
+            T, U = [canon_generic(a) for a in r["args"]]
+            if T in INT_BITS and U in INT_BITS:
+                x = self.deref_value(st, args[0])
+                return ("val", mk("agg", ("adt", "core::result::Result", 0, "Ok"), (self.cast("IntToInt", U, T, x),)))
+        m = re.match(r"^core::num::<impl (\w+)>::checked_(shl|shr)$", base)
+        if m and m.group(1) in INT_BITS and len(args) == 2:
+            ty = m.group(1)
+            a = self.deref_value(st, args[0]); sh = self.deref_value(st, args[1])
+            res = self.binop("Shl" if m.group(2) == "shl" else "Shr", ty, a, sh)
+            return ("if", self.binop("Lt", "u32", sh, mk_const("u32", INT_BITS[ty])), ("val", some(res)), ("val", NONE))
         m = re.match(r"^core::convert::num::(?:\w+::)?<impl core::convert::TryFrom<(\w+)> for (\w+)>::try_from$", base)
         if m and m.group(1) in INT_BITS and m.group(2) in INT_BITS and len(args) == 1:
             T, U = m.group(1), m.group(2)
-            PTR = {"usize": "u64", "isize": "i64"}
+            # the pointer-sized types are as wide as the arm of a `match size_of::<usize>()` this path is in (else as on this target)
+            pbits = 64
+            for k_, v_ in st.known.items():
+                if tag(k_) == "call" and k_[1] in ("core::mem::size_of<isize>", "core::mem::size_of<usize>") and type(v_) is int and v_ in (1, 2, 4, 8, 16):
+                    pbits = 8 * v_
+            PTR = {"usize": "u%d" % pbits, "isize": "i%d" % pbits}
             def rng(ty):
                 ty = PTR.get(ty, ty); n = INT_BITS[ty]
                 return (-(1 << (n - 1)), (1 << (n - 1)) - 1) if ty.startswith("i") else (0, (1 << n) - 1)
@@ -1437,6 +1549,16 @@ class Exec:
             if ulo > tlo:
                 tree = ("if", self.binop("Lt", T, x, mk_const(T, from_signed(T, ulo))), err, tree)
             return tree
+        if base.endswith("core::ops::Range<A>>::next") and len(args) == 1 and tag(args[0]) == "ref":
+            ra = args[0]
+            rng = self.load(st, ra[1], ra[2])
+            ity = (r.get("args") or [None])[0]
+            ity = canon_generic(ity) if ity else None
+            if tag(rng) == "agg" and len(rng[2]) == 2 and ity in INT_BITS and rng[2][0] is not None and rng[2][1] is not None:
+                lo_, hi_ = rng[2]
+                def advance(s2, ra=ra, rng=rng, lo_=lo_, hi_=hi_, ity=ity):
+                    self.store_to(s2, ra[1], tuple(ra[2]), mk("agg", rng[1], (self.binop("Add", ity, lo_, mk_const(ity, 1)), hi_)))
+                return ("if", self.binop("Lt", ity, lo_, hi_), ("val", some(lo_), advance), ("val", NONE))
         if base.startswith("core::slice::<impl [T]>::get") and not base.startswith("core::slice::<impl [T]>::get_") and len(args) == 2 \
                 and (r.get("args") or [None, None])[1:] == ["usize"]:
             arr = self.deref_value(st, args[0])
@@ -1451,6 +1573,8 @@ class Exec:
     def branch_values(self, st, t, vt):
         """continue at the call's target block with the destination holding one of several values, by cases"""
         if vt[0] == "val":
+            if len(vt) > 2 and vt[2] is not None:
+                vt[2](st)       # the call's effect on what its reference argument points to
             self.write_place(st, st.frames[-1], t["dest"], vt[1])
             return self.exec_block(st, t["t"])
         c, a, b = vt[1], vt[2], vt[3]
@@ -1782,9 +1906,10 @@ class Exec:
                 if r[0] == "tree":
                     return r[1]
                 if r[0] == "diverge":
-                    if t.get("dbg") and self.hooks is None:
-                        # the failure arm of a debug_assert!: the form rules read the function as if the assertion holds
-                        # (whether it can fire is the business of the totality rules, which do see this arm)
+                    if self.hooks is None and (t.get("dbg") or EXPLICIT_PANIC.search(r[1][1])):
+                        # the failure arm of an assertion / expect / unwrap: the form rules read the function as if it is not
+                        # taken (whether it can be is the business of the totality rules, which do see this arm: the property's
+                        # own, or rule RD for the bodies a form rule evaluated)
                         return ("unreachable",)
                     if self.hooks is not None:
                         self.hooks.on_panic(self, st, fr, t, r[1][1])
